@@ -166,14 +166,11 @@ func VerifC08_Step() {
 	c08Run(1, vsymBool())
 }
 
-// VerifC08_Sequences: sequences of 2 (thorough 3) arbitrary frames run through the same
+// VerifC08_Sequences: sequences of 3 arbitrary frames (both tiers) run through the same
 // comparison (a redundant, non-inductive confirmation that composing steps behaves).
 func VerifC08_Sequences() {
 	vsymExpect("ran")
-	n := 2
-	if vsymTier() == 1 {
-		n = 3
-	}
+	n := 3 // both tiers; 4 did not finish in 9 min (thorough) and is not registered
 	c08Run(n, true)
 }
 
